@@ -131,7 +131,12 @@ func (p *pki) issue(pub crypto.PublicKey, issuer *x509.Certificate, issuerKey cr
 }
 
 func (p *pki) issueSerial(pub crypto.PublicKey, issuer *x509.Certificate, issuerKey crypto.Signer, nb, na time.Time, serial *big.Int) (*x509.Certificate, []byte) {
-	t := &x509.Certificate{SerialNumber: serial, Subject: pkix.Name{CommonName: "Yubico PIV Attestation"}, NotBefore: nb, NotAfter: na, IsCA: true, BasicConstraintsValid: true}
+	return p.issueExt(pub, issuer, issuerKey, nb, na, serial, nil)
+}
+
+// issueExt: like issueSerial, with extra (e.g. unknown critical) extensions.
+func (p *pki) issueExt(pub crypto.PublicKey, issuer *x509.Certificate, issuerKey crypto.Signer, nb, na time.Time, serial *big.Int, extra []pkix.Extension) (*x509.Certificate, []byte) {
+	t := &x509.Certificate{SerialNumber: serial, ExtraExtensions: extra, Subject: pkix.Name{CommonName: "Yubico PIV Attestation"}, NotBefore: nb, NotAfter: na, IsCA: true, BasicConstraintsValid: true}
 	if issuer == nil {
 		issuer = t
 	}
@@ -145,6 +150,8 @@ func (p *pki) issueSerial(pub crypto.PublicKey, issuer *x509.Certificate, issuer
 	}
 	return c, der
 }
+
+var unknownCritical = []pkix.Extension{{Id: []int{1, 3, 6, 1, 4, 1, 99999, 1}, Critical: true, Value: []byte{0x05, 0x00}}}
 
 type attCase struct {
 	What     string `json:"what"`
@@ -384,6 +391,17 @@ func main() {
 						}
 						submit(d, d.f9, attCase{What: "separator-early:" + form, Expect: "reject", Alg: int(h.alg), Position: j}, z, nil, tbs)
 					}
+					// the encoded message WITHOUT its leading 00 (01 FF..FF 00 T filling all k octets), carried by a signature
+					// field that is one octet longer (leading zero): a verifier that sizes EM by the signature length accepts it
+					{
+						noLead := append([]byte{0x01}, bytes.Repeat([]byte{0xff}, d.k-len(t)-2)...)
+						noLead = append(append(noLead, 0x00), t...)
+						if len(noLead) == d.k && new(big.Int).SetBytes(noLead).Cmp(d.priv.N) < 0 {
+							sg := append([]byte{0}, d.signRaw(noLead)...)
+							submit(d, d.f9, attCase{What: "no-leading-zero-em-with-longer-signature:" + form, Expect: "reject", Alg: int(h.alg)}, noLead, sg, tbs)
+							submit(d, d.f9, attCase{What: "no-leading-zero-em:" + form, Expect: "reject", Alg: int(h.alg)}, noLead, nil, tbs)
+						}
+					}
 					// minimal padding with garbage in the middle (classic low-exponent forgery shape)
 					if d.k > len(t)+40 {
 						g := append([]byte{0, 1, 0xff, 0xff, 0xff, 0xff, 0xff, 0xff, 0xff, 0xff, 0}, t...)
@@ -457,6 +475,18 @@ func main() {
 							c, _ := p.issueSerial(&d.priv.PublicKey, look, lookKey, now.Add(-48*time.Hour), now.Add(4800*time.Hour), d.f9.SerialNumber)
 							return c
 						}, "reject"},
+						{"chain-other-ca-with-unknown-critical-extension", func() *x509.Certificate {
+							c, _ := p.issueExt(&d.priv.PublicKey, p.other, p.otherKey, now.Add(-48*time.Hour), now.Add(4800*time.Hour), big.NewInt(77), unknownCritical)
+							return c
+						}, "reject"},
+						{"chain-self-signed-with-unknown-critical-extension", func() *x509.Certificate {
+							c, _ := p.issueExt(&d.priv.PublicKey, nil, d.priv, now.Add(-48*time.Hour), now.Add(4800*time.Hour), big.NewInt(78), unknownCritical)
+							return c
+						}, "reject"},
+						{"chain-root-issued-with-unknown-critical-extension", func() *x509.Certificate {
+							c, _ := p.issueExt(&d.priv.PublicKey, p.root, p.rootKey, now.Add(-48*time.Hour), now.Add(4800*time.Hour), big.NewInt(79), unknownCritical)
+							return c
+						}, "dontcare"},
 						{"chain-self-signed", func() *x509.Certificate {
 							c, _ := p.issue(&d.priv.PublicKey, nil, d.priv, now.Add(-48*time.Hour), now.Add(4800*time.Hour))
 							return c
